@@ -52,8 +52,13 @@ func (g *Gate) WaitReached(d time.Duration) bool {
 func (g *Gate) Release() { g.ronce.Do(func() { close(g.release) }) }
 
 type Runtime struct {
-	mu         sync.Mutex
-	events     []Event
+	mu sync.Mutex
+	// the trace is kept in fixed-size chunks: appending never copies what is already there.  (One growing
+	// slice is copied and re-allocated under mu every time it fills up; at several hundred thousand events
+	// that holds every hooked goroutine of the process for as long as the copy and the allocator's GC assist
+	// take — under load longer than the timeouts the keepalive scenarios configure.)
+	chunks     [][]Event
+	nEvents    int
 	connIDs    map[uintptr]int
 	ptrIDs     map[uintptr]int
 	implicit   map[uintptr]bool // ids handed out on first sight, not yet claimed by a creation site
@@ -177,9 +182,41 @@ func (r *Runtime) canon(key string, v interface{}) interface{} {
 	return fmt.Sprint(v)
 }
 
+const chunkSize = 4096
+
+func (r *Runtime) appendLocked(ev Event) {
+	if k := len(r.chunks); k == 0 || len(r.chunks[k-1]) == chunkSize {
+		r.chunks = append(r.chunks, make([]Event, 0, chunkSize))
+	}
+	k := len(r.chunks) - 1
+	r.chunks[k] = append(r.chunks[k], ev)
+	r.nEvents++
+}
+
+// maxStall is the longest time any hooked goroutine has spent inside the hook runtime itself (waiting for
+// the trace mutex and recording the event; gates and the seed-driven delays are not counted) since the last
+// ResetMaxStall.  Hooks may slow goroutines down, but a scenario whose verdict depends on the library
+// reacting within a fraction of a timeout is conclusive only if the harness did not hold the library's
+// goroutines for that long itself (see scen.LagProbe).
+var maxStall atomic.Int64
+
+func ResetMaxStall()          { maxStall.Store(0) }
+func MaxStall() time.Duration { return time.Duration(maxStall.Load()) }
+
+func noteStall(t0 time.Time) {
+	d := int64(time.Since(t0))
+	for {
+		cur := maxStall.Load()
+		if d <= cur || maxStall.CompareAndSwap(cur, d) {
+			return
+		}
+	}
+}
+
 func (r *Runtime) hook(site string, conn interface{}, kv ...interface{}) {
 	var n int
 	var gate *Gate
+	t0 := time.Now()
 	if r.NoTrace {
 		// only sites that carry a gate are counted (under the mutex): everything else stays free of
 		// synchronisation so that the race detector sees the program's own ordering only
@@ -215,7 +252,7 @@ func (r *Runtime) hook(site string, conn interface{}, kv ...interface{}) {
 			}
 			cid = id
 		}
-		ev := Event{Seq: len(r.events), Site: site, Conn: cid, T: time.Since(r.start).Microseconds()}
+		ev := Event{Seq: r.nEvents, Site: site, Conn: cid, T: time.Since(r.start).Microseconds()}
 		if len(kv) > 0 {
 			ev.KV = map[string]interface{}{}
 			for i := 0; i+1 < len(kv); i += 2 {
@@ -223,7 +260,7 @@ func (r *Runtime) hook(site string, conn interface{}, kv ...interface{}) {
 				ev.KV[k] = r.canonAt(site, k, kv[i+1])
 			}
 		}
-		r.events = append(r.events, ev)
+		r.appendLocked(ev)
 		r.counts[site]++
 		n = r.counts[site]
 		for _, g := range r.gates {
@@ -243,6 +280,7 @@ func (r *Runtime) hook(site string, conn interface{}, kv ...interface{}) {
 		}
 		r.mu.Unlock()
 	}
+	noteStall(t0)
 	if gate != nil {
 		gate.once.Do(func() { close(gate.reached) })
 		<-gate.release
@@ -272,7 +310,7 @@ func (r *Runtime) hook(site string, conn interface{}, kv ...interface{}) {
 // Log adds a harness-side observable event to the same total order.
 func (r *Runtime) Log(site string, kv ...interface{}) {
 	r.mu.Lock()
-	ev := Event{Seq: len(r.events), Site: site, T: time.Since(r.start).Microseconds()}
+	ev := Event{Seq: r.nEvents, Site: site, T: time.Since(r.start).Microseconds()}
 	if len(kv) > 0 {
 		ev.KV = map[string]interface{}{}
 		for i := 0; i+1 < len(kv); i += 2 {
@@ -280,7 +318,7 @@ func (r *Runtime) Log(site string, kv ...interface{}) {
 			ev.KV[k] = r.canonAt(site, k, kv[i+1])
 		}
 	}
-	r.events = append(r.events, ev)
+	r.appendLocked(ev)
 	r.counts[site]++
 	r.mu.Unlock()
 }
@@ -321,8 +359,10 @@ func (r *Runtime) ReleaseAll() {
 func (r *Runtime) Events() []Event {
 	r.mu.Lock()
 	defer r.mu.Unlock()
-	out := make([]Event, len(r.events))
-	copy(out, r.events)
+	out := make([]Event, 0, r.nEvents)
+	for _, c := range r.chunks {
+		out = append(out, c...)
+	}
 	return out
 }
 
@@ -339,7 +379,7 @@ func (r *Runtime) CountsCopy() map[string]int {
 func (r *Runtime) Len() int {
 	r.mu.Lock()
 	defer r.mu.Unlock()
-	return len(r.events)
+	return r.nEvents
 }
 
 func (r *Runtime) Count(site string) int {
